@@ -545,6 +545,7 @@ func RunPlan(p Plan) *Result {
 			rnd := newLCG(int64(977 + si))
 			kept := map[int]*dragonboat.RequestState{}
 			keptInc := map[int]int{}
+			keptAt := map[int]int64{}
 			for {
 				select {
 				case <-stopClients:
@@ -558,16 +559,20 @@ func RunPlan(p Plan) *Result {
 					if rs := kept[h.Idx]; rs != nil && keptInc[h.Idx] == h.Inc && rnd.intn(2) == 0 {
 						// the no-allocation read path with a completed ReadIndex that the reader
 						// keeps using (not part of the checked history: the index is old)
-						if _, err := h.NH.NAReadLocalNode(rs, []byte(key)); err == nil {
+						if b, err := h.NH.NAReadLocalNode(rs, []byte(key)); err == nil {
 							res.flag("na-read-ok")
+							// checked by the stale-read oracle only: the read may take effect anywhere
+							// between the moment its ReadIndex was issued and now
+							addOp(&Op{Client: 200 + si, Host: h.Idx, Key: key, Val: string(b), Call: keptAt[h.Idx], Ret: Now(), Outcome: "completed", Mode: "na-kept"})
 						}
 					} else if _, err := h.NH.StaleRead(shardID, key); err == nil {
 						res.flag("stale-read-ok")
 					}
 					if keptInc[h.Idx] != h.Inc || kept[h.Idx] == nil {
+						at := Now()
 						if rs, err := h.NH.ReadIndex(shardID, 200*time.Millisecond); err == nil {
 							if r, got := awaitResult(rs, 200*time.Millisecond); got && r.Completed() {
-								kept[h.Idx], keptInc[h.Idx] = rs, h.Inc
+								kept[h.Idx], keptInc[h.Idx], keptAt[h.Idx] = rs, h.Inc, at
 							}
 						}
 					}
@@ -971,6 +976,8 @@ func (res *Result) CheckLinearizable() {
 	end := Now() + 1000
 	for _, op := range res.Ops {
 		switch {
+		case op.Mode == "na-kept":
+			// long lived reads of the local readers: decided by the stale-read oracle
 		case op.Outcome == "notproposed" || op.Outcome == "":
 		case op.Write && op.Outcome == "completed":
 			hist = append(hist, porcupine.Operation{ClientId: op.ID, Input: regIn{true, op.Key, op.Val}, Call: op.Call, Output: "", Return: op.Ret})
